@@ -52,8 +52,25 @@ def run(ctx):
         if isinstance(n, ast.Assign) and len(n.targets) == 1 and isinstance(n.targets[0], ast.Attribute) \
                 and isinstance(n.targets[0].value, ast.Name) and n.targets[0].value.id in info_names:
             stores.setdefault(n.targets[0].attr, []).append(n)
+    lazy_fragment = None
+    if 'fragment' not in stores:
+        # the fragment is not part of the crawl key (.url): it may be normalised when it is read instead
+        fp = repo.cls(URL + ':URLInfo').methods.get('fragment')
+        if fp is not None and fp.is_property:
+            rets = [r.value for r in walk_no_nested(fp.node) if isinstance(r, ast.Return) and r.value is not None
+                    and not (isinstance(r.value, ast.Constant) and r.value.value is None)]
+            fields = set()
+            for v in rets:
+                a0 = v.args[0] if isinstance(v, ast.Call) and v.args else None
+                enc = U.kwarg(v, 'encoding', 1) if isinstance(v, ast.Call) else None
+                if isinstance(v, ast.Call) and (dotted(v.func) or '') == 'normalize_fragment' and U.is_self_attr(a0) and U.is_self_attr(enc, 'encoding'):
+                    fields.add(a0.attr)
+                else:
+                    fields.add(None)
+            if rets and None not in fields and len(fields) == 1 and next(iter(fields)) in stores:
+                lazy_fragment = next(iter(fields))
     for need in ('scheme', 'hostname', 'port', 'path', 'query', 'fragment'):
-        if need not in stores:
+        if need not in stores and not (need == 'fragment' and lazy_fragment):
             raise AnalysisError('URLInfo.parse no longer stores info.%s' % need)
 
     def net_store(attr):
@@ -88,6 +105,9 @@ def run(ctx):
     # scheme compared against the default-port table only after lower-casing: the membership test uses the same local
     # path / query / fragment
     for attr, fn in (('path', 'normalize_path'), ('query', 'normalize_query'), ('fragment', 'normalize_fragment')):
+        if attr == 'fragment' and lazy_fragment:
+            ck.ok('C10-D1', parse.qual, 'fragment normalised when read: property fragment = normalize_fragment(self.%s, encoding=self.encoding)' % lazy_fragment)
+            continue
         v = net_store(attr).value
         okc = isinstance(v, ast.Call) and (dotted(v.func) or '') == fn
         if okc:
